@@ -312,13 +312,16 @@ def locate(src, path):
     it = None
     for seg in path:
         seg = norm(seg)
-        kind, _, rest = seg.partition(" ")
+        if seg.startswith("impl"):
+            kind, rest = "impl", seg[4:].strip()
+        else:
+            kind, _, rest = seg.partition(" ")
         cands = []
         for x in items_in(src, lo, hi):
             if x.kind != kind:
                 continue
             if kind in ("impl",):
-                if norm(x.header) == rest:
+                if norm(x.header).replace(" ", "") == rest.replace(" ", ""):
                     cands.append(x)
             elif kind == "trait":
                 if x.name == rest or norm(x.header) == rest:
